@@ -101,6 +101,24 @@ def job_spell(j):
         sig1 = Chem.MolToSmiles(mh) + '|' + ','.join(sorted(a.GetPropsAsDict().keys().__str__() for a in mh.GetAtoms()))
         if sig0 != sig1:
             outs.append(['mol-object-modified', smi, {'exc': 'CallerObjectModified'}])
+        # ... a molecule object whose hydrogens are NOT the last atoms (renumbered after AddHs; parsed with removeHs=False), and one
+        # whose ring bookkeeping was refreshed by the caller with the fast ring finder
+        try:
+            import random as _r
+            rr_ = _r.Random(j.get('seed', 0) + len(smi))
+            perm_ = list(range(mh.GetNumAtoms()))
+            rr_.shuffle(perm_)
+            outs.append(['mol-object-H-shuffled', smi, decomp(sch, Chem.RenumberAtoms(Chem.AddHs(Chem.MolFromSmiles(smi)), perm_))])
+            ps_ = Chem.SmilesParserParams()
+            ps_.removeHs = False
+            mx_ = Chem.MolFromSmiles(Chem.MolToSmiles(Chem.RenumberAtoms(Chem.AddHs(Chem.MolFromSmiles(smi)), perm_), canonical=False), ps_)
+            if mx_ is not None:
+                outs.append(['mol-object-keepHs', smi, decomp(sch, mx_)])
+            mf_ = Chem.MolFromSmiles(smi)
+            Chem.FastFindRings(mf_)
+            outs.append(['mol-object-fastrings', smi, decomp(sch, mf_)])
+        except Exception as e_:
+            outs.append(['mol-object-H-shuffled', smi, {'exc': 'Harness:' + exc_name(e_)}])
         # ... and molecule objects the caller keeps in Kekule form (aromatic flags cleared), with and without explicit hydrogens
         try:
             mk = Chem.MolFromSmiles(smi)
